@@ -224,7 +224,14 @@ func c06Success(c *Ctx, cs *Case, f, merged model.Forest, doc, fkey string, ei i
 	if massive {
 		c06Quiet.Quiesce(base)
 	}
+	openAfter := mon.OpenUnder(j.Root) // (before anything else: the files of a finished call are closed)
 	after := j.Snap()
+	if len(openAfter) > 0 {
+		cs.Entry = rt.Name + map[bool]string{true: "[massive]", false: ""}[massive]
+		c.Violation(cs, "mkdir.left-descriptors-open", "", map[string]any{"forest": fkey, "open": openAfter})
+		cs.Entry = ""
+	}
+	c.Count("calls_followed_by_a_look_at_the_open_descriptors", 1)
 	cs.Entry = rt.Name + map[bool]string{true: "[massive]", false: ""}[massive]
 	cs.Opt = map[string]string{"ext": strconv.Itoa(ei), "state": strconv.Itoa(st), "stray_options": strayName}
 	defer func() { cs.Entry, cs.Opt = "", nil }()
